@@ -581,15 +581,25 @@ def history_case(case_seed, res, prop="C09"):
     ops = []
     d = tempfile.mkdtemp(prefix="verif-c09h-")
     try:
+        # (one history in four begins: sign, sign again with the same key in addition, store and load again, verify)
+        forced = [("sign", keys[0]), ("append", keys[0]), ("reload", keys[0]), ("verify", keys[0])] if case_seed % 4 == 0 else []
         for _step in range(rng.randrange(4, 11)):
             kind = rng.choice(["verify"] * 5 + ["impostor"] * 2 + ["sign", "sign", "append", "append", "edit", "reload", "corrupt"])
             k = rng.choice(keys)
+            if forced:
+                kind, k = forced.pop(0)
             if kind == "append" and prop == "C09" and present and rng.random() < 0.5:
                 # a second signature by a key that has signed already (in-toto-sign --append does this)
                 dup_id = rng.choice(present)[0]
                 k = next(x for x in keys if x.keyid == dup_id)
-            if kind == "append" and any(p[0] == k.keyid for p in present) and prop != "C09":
-                kind = "sign"         # for the comparison of the formats key ids within one file stay distinct (DESIGN 4.3)
+            dups_ = [p for p in present if p[0] == k.keyid]
+            if kind == "append" and dups_ and prop != "C09" and not all(p[2] == version for p in dups_):
+                # for the comparison of the formats two signatures under one key id occur only while both are valid (the
+                # same key signing the same content twice, as `in-toto-sign -a` run twice does): first-match and any-match
+                # then agree (DESIGN 4.3)
+                kind = "sign"
+            if kind == "corrupt" and prop != "C09" and len({p[0] for p in present}) != len(present):
+                kind = "verify"
             if kind == "corrupt" and not any(p[2] != -1 for p in present):
                 kind = "verify"       # nothing (left) to corrupt; a second change could restore the original value
             op = {"op": kind, "key": k.keyid[:8]}
@@ -648,15 +658,28 @@ def history_case(case_seed, res, prop="C09"):
                 mds["dsse"].payload = Envelope.from_signable(objs["dsse"]).payload
                 op.pop("key")
             elif kind == "reload":
+                outs_r = {}
                 for fmt in list(mds):
                     path = os.path.join(d, "h-%s" % fmt)
                     mds[fmt].dump(path)
-                    mds[fmt] = Metadata.load(path)
+                    try:
+                        mds[fmt] = Metadata.load(path)
+                        outs_r[fmt] = "ok"
+                    except Exception as e:  # pylint: disable=broad-except
+                        outs_r[fmt] = W.exc_class(e)
+                        continue
                     if fmt == "metablock":
                         objs[fmt] = mds[fmt].signed
                     else:
                         objs[fmt] = mds[fmt].get_payload()
-                op.pop("key")
+                op.pop("key", None)
+                if set(outs_r.values()) != {"ok"}:
+                    # what in-toto itself wrote cannot be loaded again (in one format, or in both)
+                    res.evaluations += 1
+                    res.fail("oracle", {"op": "history", "case_seed": case_seed, "ops": ops + [op], "fmt": "both"},
+                             {"why": "metadata stored through in-toto cannot be loaded again" + (
+                                 " in one of the two formats" if "ok" in outs_r.values() else ""), "outcomes": outs_r})
+                    return
             else:
                 pub = json.loads(json.dumps(k.pub))
                 if kind == "impostor":
